@@ -1,0 +1,21 @@
+//go:build verif
+
+// Contracts for the compilation context's block-depth bookkeeping (read as text by /verif's govc;
+// comment-only).
+
+package context
+
+//@ # the depth counter is treated as a mathematical integer (nesting depth is bounded by the source size)
+//@ inline func (c Context[ASTNode]) EnterBlock() Context[ASTNode]
+//@   overflow off
+//@ inline func (c Context[ASTNode]) BlockDepth() int
+//@ inline func (c Context[ASTNode]) EnterLoop(entry LoopEntry) Context[ASTNode]
+//@ inline func (c Context[ASTNode]) CurrentLoop() (LoopEntry, bool)
+//@ inline func (c Context[ASTNode]) WithScope(scope *symbol.Symbol) Context[ASTNode]
+//@ inline func Child[P, ASTNode antlr.ParserRuleContext](ctx Context[P], node ASTNode) Context[ASTNode]
+
+//@ # the context's idea of the nesting depth is the writer's actual nesting depth
+//@ spec func SpecConsistent[ASTNode antlr.ParserRuleContext](c Context[ASTNode]) bool = c.Writer != nil && c.blockDepth >= 0 && c.blockDepth <= 2147483647 && c.blockDepth == wasm.SpecOpen[c.Writer]
+//@ # every enclosing loop recorded the level of its `block` (break target) and of its `loop`
+//@ # (continue target), both still open
+//@ spec func SpecLoopsOK[ASTNode antlr.ParserRuleContext](c Context[ASTNode]) bool = forall i int :: 0 <= i && i < len(c.loopStack) ==> 1 <= c.loopStack[i].BreakDepth && c.loopStack[i].BreakDepth < c.loopStack[i].ContinueDepth && c.loopStack[i].ContinueDepth <= c.blockDepth
